@@ -36,6 +36,7 @@ func init() {
 			"API default media type present (plain or with parameters)/absent, Accept header absent / acceptable / admitting nothing the operation produces, tagged consumers registered API-wide for (most of) 14 concrete types (the two form media types among them) and optionally for wildcard keys; requests with Content-Type drawn from: admitted (exactly / through the default / through an entry with parameters / through type/* / through */*), " +
 			"non-admitted pool types, near misses of admitted types, literal wildcard types, absent, empty, malformed and grey-zone values, each spelled plain / with parameters / with OWS around ';' / in mixed letter case; body signalled by Content-Length (with and without the header line), " +
 			"by ContentLength=-1 (chunked, or without any transfer coding), by a real Content-Length or chunked request over a loopback server, or absent (no body, Content-Length: 0, empty stream of unknown length). Every case is executed through both entry points (untyped pipeline via RoutesHandler, and Context.BindValidRequest with a RequestBinder that decodes with route.Consumer - called directly on a Context made by NewContext, or, for half of the requests, from the operation handler of a RoutableAPI (gen.GeneratedAPI: RouteInfo, BindValidRequest, Respond) served by a Context made by NewRoutableContext, the constructor generated servers use; for a third of the requests - half of those to formData operations - that RequestBinder binds with route.Binder, the route's reflective binder, instead of decoding with route.Consumer itself). One description in ten declares no produces and has no default producer. " +
+			"A second workload (a fifth as many requests): descriptions whose paths each declare two to four operations (distinct methods) with consumes lists of their own - drawn independently, or close relatives that share some entries and differ in others; no spec-level list, no formData operations, in-memory requests - all served in sequence by the same two handlers (the same Contexts for the whole description); two requests in five carry a media type that the operation and one of its siblings judge differently, one in seven a media type the path was sent before in another spelling; each request is judged by the declaration of the operation it is routed to, whatever was served before. A finding of that workload is reported from the smallest isolated re-execution that shows it: the operation alone, the operation and its siblings on fresh handlers, or the same after the (shrunk) list of requests the path was sent before, which the case then carries (preceding_requests) and a replay serves first. " +
 			"oracle written from the statement: own RFC 7231 media-type classifier and own admission function. non-trivial = the request carries a body, or is body-less but carries a Content-Type that the gate would refuse; distinct by (consumes shape, default present, admission class, header kind+spelling, body signalling, method)",
 		Assumptions: []string{
 			"consumes entries and the API default are lower case; entries with parameters are spelled 'type/subtype;name=value', 'type/subtype; name=value' or with whitespace before the ';' (legal OWS of RFC 7231 3.1.1.1: the same media type); wildcard entries carry no parameters",
@@ -47,6 +48,7 @@ func init() {
 			"an operation with a formData parameter is gated like any other: a non-admitted or malformed type is refused 415/400 with nothing run, through both entry points; for admitted types only 'no foreign consumer ran' is judged (the reflective formData binder has its own opinion on the request's type and a multipart body needs a boundary), except admitted application/x-www-form-urlencoded bodies, which both entry points must serve; a body-less request to such an operation (its one formData parameter is optional) is judged like every body-less request: whatever its Content-Type header says (a form type, another type, an unparsable value, nothing) it is not answered 415/400, no consumer runs, and both entry points serve it",
 			"the RequestBinder of the generated-server entry point either decodes the body with route.Consumer itself or binds with the route's own reflective binder (route.Binder.Bind with route.Params and route.Consumer): both are what an application may hand to BindValidRequest; the expectations are the same",
 			"a spec-level consumes list declared next to an operation's own list is overridden by it (Swagger 2.0); a request with two Content-Type field lines is judged for safety only: refused with nothing run when both lines name non-admitted types, a consumer that runs is the one of an admitted type that one of the lines names, the entry points agree",
+			"'the operation's consumes list' is the list of the operation the request is routed to (method and path): operations that share a path template are gated independently of each other and of every request served before; preceding requests of a replayed case are served through both entry points and not judged (each was judged when the run served it)",
 			"an operation that declares no body parameter is gated like any other (the statement quantifies over requests that carry a body); whether its body is decoded at all is not judged, only that nothing but the consumer of its media type decodes it",
 		},
 		MinNontrivial: 300,
@@ -59,7 +61,8 @@ func init() {
 // case
 // ---------------------------------------------------------------------------------------------
 
-// Case is one API configuration with a single operation plus one request.
+// Case is one API configuration with a single operation (optionally: its sibling operations on the same path, and the
+// requests served before) plus one request.
 type Case struct {
 	Consumes   []string `json:"consumes"`         // consumes list of the operation (nil/empty: none declared)
 	Global     bool     `json:"global,omitempty"` // the list is declared at spec level, not on the operation
@@ -96,6 +99,48 @@ type Case struct {
 	// (route.Binder.Bind(r, route.Params, route.Consumer, &values)) instead of decoding the body with route.Consumer
 	// itself: the parameter binders (the formData one among them) then run behind the generated-server entry point too
 	RouteBinder bool `json:"entry2_binds_with_route_binder,omitempty"`
+	// Siblings: the other operations declared on the SAME path template (other methods), each with a consumes list of
+	// its own. With siblings the path declares Method and the siblings' methods only (without: all seven methods, one
+	// list). Each request is judged by the declaration of the operation it goes to.
+	Siblings []Sibling `json:"sibling_operations,omitempty"`
+	// History: the requests served just before this one by the same handlers (the same two Contexts), to this operation
+	// or to its siblings, in order; a replay serves them first, unjudged, through both entry points as the run did. State
+	// kept across requests is part of what is judged: each request is gated by its own operation's list alone.
+	History []Prior `json:"preceding_requests,omitempty"`
+}
+
+// Sibling is another operation on the path of the case's operation.
+type Sibling struct {
+	Method      string   `json:"method"`
+	Consumes    []string `json:"consumes"`
+	NoBodyParam bool     `json:"no_body_param,omitempty"`
+	FormParam   bool     `json:"form_param,omitempty"`
+}
+
+// Prior is a request served before the judged one (the request part of a Case).
+type Prior struct {
+	Method      string `json:"method"`
+	HasCT       bool   `json:"has_ct"`
+	CT          mon.Q  `json:"ct"`
+	HasCT2      bool   `json:"has_second_ct,omitempty"`
+	CT2         mon.Q  `json:"second_ct,omitempty"`
+	BodyMode    string `json:"body_mode"`
+	Payload     mon.Q  `json:"payload"`
+	HasAccept   bool   `json:"has_accept,omitempty"`
+	Accept      mon.Q  `json:"accept,omitempty"`
+	Entry2      string `json:"entry2,omitempty"`
+	RouteBinder bool   `json:"entry2_binds_with_route_binder,omitempty"`
+}
+
+func priorOf(c *Case) Prior {
+	return Prior{Method: c.Method, HasCT: c.HasCT, CT: c.CT, HasCT2: c.HasCT2, CT2: c.CT2, BodyMode: c.BodyMode, Payload: c.Payload,
+		HasAccept: c.HasAccept, Accept: c.Accept, Entry2: c.Entry2, RouteBinder: c.RouteBinder}
+}
+
+// request is the Case that exec needs to send the prior request again.
+func (p *Prior) request() *Case {
+	return &Case{Method: p.Method, HasCT: p.HasCT, CT: p.CT, HasCT2: p.HasCT2, CT2: p.CT2, BodyMode: p.BodyMode, Payload: p.Payload,
+		HasAccept: p.HasAccept, Accept: p.Accept, Entry2: p.Entry2, RouteBinder: p.RouteBinder}
 }
 
 const urlencoded, multipart = "application/x-www-form-urlencoded", "multipart/form-data"
@@ -529,6 +574,35 @@ type opSpec struct {
 	consumes []string
 	noParam  bool // the operation declares no parameter (no body parameter)
 	form     bool // the operation declares an optional formData parameter instead of the body parameter
+	// with siblings: the path declares this operation under method only, and the siblings under theirs
+	method   string
+	siblings []Sibling
+}
+
+// methodOp is one declared operation of a path.
+type methodOp struct {
+	method   string
+	consumes []string
+	noParam  bool
+	form     bool
+}
+
+// declared lists the operations the path of op declares: all seven methods with op's list, or op and its siblings.
+func (op opSpec) declared() []methodOp {
+	var l []methodOp
+	if len(op.siblings) == 0 || op.method == "" {
+		for _, mth := range methods {
+			l = append(l, methodOp{mth, op.consumes, op.noParam, op.form})
+		}
+		return l
+	}
+	l = append(l, methodOp{op.method, op.consumes, op.noParam, op.form})
+	for _, sb := range op.siblings {
+		if sb.Method != op.method {
+			l = append(l, methodOp{sb.Method, sb.Consumes, sb.NoBodyParam, sb.FormParam})
+		}
+	}
+	return l
 }
 
 // buildEnv creates a description with operations /o<i> (all seven methods each), op i consuming
@@ -538,7 +612,8 @@ func buildEnv(ops []opSpec, global bool, def string, registered []string, noProd
 	paths := map[string]interface{}{}
 	for i, op := range ops {
 		item := map[string]interface{}{}
-		for _, mth := range methods {
+		for _, op := range op.declared() {
+			mth := op.method
 			o := map[string]interface{}{
 				"operationId": fmt.Sprintf("o%d%s", i, strings.ToLower(mth)),
 				"responses":   map[string]interface{}{"200": map[string]interface{}{"description": "ok"}},
@@ -593,8 +668,8 @@ func buildEnv(ops []opSpec, global bool, def string, registered []string, noProd
 		api.RegisterConsumer(k, &taggedConsumer{tag: k, e: e})
 	}
 	for i := range ops {
-		for _, mth := range methods {
-			api.RegisterOperation(mth, fmt.Sprintf("/o%d", i), runtime.OperationHandlerFunc(func(interface{}) (interface{}, error) {
+		for _, d := range ops[i].declared() {
+			api.RegisterOperation(d.method, fmt.Sprintf("/o%d", i), runtime.OperationHandlerFunc(func(interface{}) (interface{}, error) {
 				e.mu.Lock()
 				if e.cur != nil {
 					e.cur.Handler++
@@ -615,8 +690,8 @@ func buildEnv(ops []opSpec, global bool, def string, registered []string, noProd
 		},
 	}
 	for i := range ops {
-		for _, mth := range methods {
-			g.Operation(mth, fmt.Sprintf("/o%d", i), op)
+		for _, d := range ops[i].declared() {
+			g.Operation(d.method, fmt.Sprintf("/o%d", i), op)
 		}
 	}
 	e.rctx = middleware.NewRoutableContext(ld, g, nil)
@@ -897,7 +972,25 @@ func (e *expectation) extraFeature(c *Case) string {
 	if c.BodyMode == "unknown-length" || c.BodyMode == "unknown-length-empty" {
 		f += "+unknown-length-without-transfer-coding"
 	}
+	f += historyFeature(c)
 	return f
+}
+
+// historyFeature names what of the description and of the handler's past the case carries beyond its own operation
+// and request: sibling operations on the path, and requests served before.
+func historyFeature(c *Case) string {
+	if len(c.History) > 0 {
+		for i := range c.History {
+			if c.History[i].Method != c.Method {
+				return "+after-requests-to-sibling-operations-on-the-path"
+			}
+		}
+		return "+after-earlier-requests-to-the-operation"
+	}
+	if len(c.Siblings) > 0 {
+		return "+sibling-operations-with-lists-of-their-own-on-the-path"
+	}
+	return ""
 }
 
 // formSkipFeature names, for a body-less request to a formData operation, what its Content-Type header says (the
@@ -1201,7 +1294,7 @@ func fingerprint(c *Case, e *expectation) string {
 	if c.HasCT {
 		sp = spelling(string(c.CT))
 	}
-	return strings.Join([]string{c.Shape, strconv.FormatBool(c.Default != ""), strconv.FormatBool(c.Global), e.verdict, e.admit, e.kind.String(), sp, c.BodyMode, c.Method, e.accept, strconv.FormatBool(c.NoBodyParam), strconv.FormatBool(c.FormParam), strconv.FormatBool(len(c.SpecConsumes) > 0), strconv.FormatBool(c.HasCT2), strconv.FormatBool(c.NoProduces), c.Entry2, strconv.FormatBool(c.RouteBinder)}, "|")
+	return strings.Join([]string{c.Shape, strconv.FormatBool(c.Default != ""), strconv.FormatBool(c.Global), e.verdict, e.admit, e.kind.String(), sp, c.BodyMode, c.Method, e.accept, strconv.FormatBool(c.NoBodyParam), strconv.FormatBool(c.FormParam), strconv.FormatBool(len(c.SpecConsumes) > 0), strconv.FormatBool(c.HasCT2), strconv.FormatBool(c.NoProduces), c.Entry2, strconv.FormatBool(c.RouteBinder), strconv.FormatBool(len(c.Siblings) > 0)}, "|")
 }
 
 func shapeOf(consumes []string) string {
@@ -1271,6 +1364,9 @@ func evalOn(m *mon.M, e *env, opIdx int, c *Case) ([]finding, *observation, *obs
 	if c.RouteBinder {
 		m.Class("entry2-binds-with-route-binder:" + ex.verdict)
 	}
+	if len(c.Siblings) > 0 {
+		m.Class("sibling-operations-on-the-path:" + ex.verdict)
+	}
 	if c.FormParam && ex.verdict == "skip" {
 		m.Class("formdata-operation:bodyless" + formSkipFeature(&ex))
 	}
@@ -1296,20 +1392,51 @@ type sample struct {
 	Entry2 *observation `json:"bind_valid_request"`
 }
 
-// runCase executes one case in isolation (its own description with the single operation) and reports.
-func runCase(m *mon.M, c *Case) int {
-	e, err := buildEnv([]opSpec{{consumes: c.Consumes, noParam: c.NoBodyParam, form: c.FormParam}}, c.Global, c.Default, c.Registered, c.NoProduces, c.SpecConsumes...)
+// isolated executes one case in an environment of its own - a description with the single operation (and its siblings,
+// when the case names some), the case's preceding requests served first and unjudged through both entry points - and
+// returns the findings.
+func isolated(m *mon.M, c *Case) (fs []finding, o1, o2 *observation, ok bool) {
+	e, err := buildEnv([]opSpec{{consumes: c.Consumes, noParam: c.NoBodyParam, form: c.FormParam, method: c.Method, siblings: c.Siblings}}, c.Global, c.Default, c.Registered, c.NoProduces, c.SpecConsumes...)
 	if err != nil {
 		m.Class("env-build-failed")
-		return 0
+		return nil, nil, nil, false
 	}
 	defer e.close()
-	fs, o1, o2 := evalOn(m, e, 0, c)
+	for i := range c.History {
+		h := c.History[i].request()
+		e.exec(h, 0, 1)
+		e.exec(h, 0, 2)
+	}
+	fs, o1, o2 = evalOn(m, e, 0, c)
+	return fs, o1, o2, true
+}
+
+// runCase executes one case in isolation and reports.
+func runCase(m *mon.M, c *Case) int {
+	fs, o1, o2, ok := isolated(m, c)
+	if !ok {
+		return 0
+	}
 	for _, f := range fs {
-		m.Violate(f.code+"/"+f.feature, f.text+fmt.Sprintf("\nconsumes=%q default=%q method=%s body=%s content-type=%s accept=%s body-parameter=%v\nuntyped: %+v\nbind_valid_request: %+v",
-			c.Consumes, c.Default, c.Method, c.BodyMode, ctText(c), acceptText(c), !c.NoBodyParam, *o1, *o2), c)
+		m.Violate(f.code+"/"+f.feature, f.text+fmt.Sprintf("\nconsumes=%q default=%q method=%s body=%s content-type=%s accept=%s body-parameter=%v%s\nuntyped: %+v\nbind_valid_request: %+v",
+			c.Consumes, c.Default, c.Method, c.BodyMode, ctText(c), acceptText(c), !c.NoBodyParam, historyText(c), *o1, *o2), c)
 	}
 	return len(fs)
+}
+
+func historyText(c *Case) string {
+	var sb strings.Builder
+	for _, s := range c.Siblings {
+		fmt.Fprintf(&sb, "\nsibling operation %s on the path: consumes=%q", s.Method, s.Consumes)
+	}
+	for i, h := range c.History {
+		ct := "<absent>"
+		if h.HasCT {
+			ct = strconv.Quote(string(h.CT))
+		}
+		fmt.Fprintf(&sb, "\npreceding request %d: %s body=%s content-type=%s", i+1, h.Method, h.BodyMode, ct)
+	}
+	return sb.String()
 }
 
 func acceptText(c *Case) string {
